@@ -69,7 +69,9 @@ ALL_SHAPES = list(R.SHAPE_ORDER)
 TOPS_PLAIN = [t for t in R.TOP_ORDER if t != "none"]
 # (shape, top) combinations per term
 COMBOS_FULL = [(s, "none") for s in ALL_SHAPES] + [("plain", t) for t in TOPS_PLAIN] + \
-              [("tmpl", "qq"), ("ptmpl", "nested"), ("arg_qq", "ident"), ("raise", "splice")]
+              [("tmpl", "qq"), ("ptmpl", "nested"), ("arg_qq", "ident"), ("raise", "splice"),
+               # a pass-through macro whose expansion is directly another (template) macro call on a later line
+               ("tmpl", "ident"), ("tmpl_raise", "ident"), ("tmpl_deep", "ident"), ("tmpl", "nested")]
 COMBOS_CORE = [("plain", "none"), ("raise", "none"), ("name", "none"), ("arg_qq", "none"), ("tmpl_deep", "none"),
                ("ptmpl", "none"), ("plain", "nested")]
 COMBOS_CORE5 = [("plain", "none"), ("raise", "none"), ("arg_qq", "none"), ("ptmpl", "none"), ("plain", "nested")]
